@@ -4,7 +4,7 @@ import re
 from analysis import (Prov, Guards, fmt, fmt_short, walk, roots, short, comparison, find_calls, callee_matches,
                       must_pass, writes_into, write_range, aliases_of, linear)
 from facts import AnchorError, strip_closure
-from harness import Rule
+from harness import Rule, guarded
 
 PID = "C19"
 EXPLANATION = (
@@ -257,4 +257,5 @@ def r4(ctx):
 
 
 def run(ctx):
-    return [r1(ctx), r2(ctx), r3(ctx), r4(ctx)]
+    G = lambda l, f, *a: guarded("C19." + l, f, ctx, *a)
+    return G("R1", r1) + G("R2", r2) + G("R3", r3) + G("R4", r4)
